@@ -103,7 +103,8 @@ func (g *c06GateSink) Write(p []byte) (int, error) {
 }
 
 func c06Replay(c *Ctx) {
-	client := &http.Client{Transport: &http.Transport{MaxIdleConnsPerHost: 4}}
+	// (the timeout is a watchdog: an exchange takes milliseconds; one that never completes is reported as failed)
+	client := &http.Client{Transport: &http.Transport{MaxIdleConnsPerHost: 4}, Timeout: 90 * time.Second}
 	srv := newSwapServer()
 	defer srv.Close()
 	c.Cases("case", c.N(800, 15000), func(i int, r *rand.Rand) {
@@ -160,6 +161,15 @@ func c06Replay(c *Ctx) {
 		defer stragglers.Wait()
 		var seen []c06Seen
 		var gated []*c06GateSink
+		defer func() { // whatever happened, no left-over copy stays blocked in its sink
+			mu.Lock()
+			gs := gated
+			gated = nil
+			mu.Unlock()
+			for _, g := range gs {
+				close(g.gate)
+			}
+		}()
 		h := http.HandlerFunc(func(w http.ResponseWriter, req *http.Request) {
 			mu.Lock()
 			k := len(seen)
